@@ -107,6 +107,24 @@ PROPS["C15"] = {
     },
 }
 
+PROPS["C16"] = {
+    "level": "exploration",
+    "rule": ("each run generates an upstream list of 1-4 entries of kinds {tcp, unix, tcp+tls, ws, udp}, each healthy or failing in one manner {refused, black-holed connect, accepts and stays "
+             "silent, error status, no security while the client requires it}, a listener with forward address {absent, reachable, refused}, 1-3 concurrent local connections, then a history "
+             "{none, carrier reset, silent loss, server crash+restart} followed by new local connections; non-trivial = the selection/forward/refusal outcome was judged; distinct = schedule shapes"),
+    "probes": ["failover_settled", "forward_direct", "all_failing_refused", "reconnect_ok", "insecure_upstream_skipped", "fault_carrier_reset", "fault_partition", "fault_server_restart"],
+    "technique": "deterministic simulation: generated upstream lists x failure modes x session-loss histories, accept-log/physical-connection-count/recovery-bound oracles",
+    "level_text": ("Seeded exploration. Oracles: the forward target gets the connection and no upstream is contacted when the forward address is reachable; otherwise the first healthy entry that "
+                   "meets the security requirement carries the session, later entries are never contacted, exactly one physical connection exists for all concurrent logical connections, "
+                   "each failing entry costs at most its allowance (130 s for an unanswered connect = the OS connect timeout, 120 s for a silent peer, 5 s otherwise), and after a session "
+                   "loss new local connections are served over exactly one new physical connection within the same allowance."),
+    "level_note": "Black-holed TCP connects fail after 127 simulated seconds (Linux SYN retry default), which is outside socketace's control. Failing endpoints are scripted listeners; healthy ones are real server endpoints. Silent loss is followed by 95 s so that the keep-alive can notice it.",
+    "tiers": {
+        "quick": {"runs": 3000, "chunk": 250, "shrink_s": 40},
+        "thorough": {"runs": 120000, "chunk": 500, "shrink_s": 120},
+    },
+}
+
 PENDING = "check under construction in this round; see DESIGN.md section 5 for the planned simulation"
 NOT_APPLICABLE = [
     {"property_id": "C08", "reason": "pure function of one byte string (codec Encode/Decode): no schedule, clock, fault or second party for a simulator to control; see DESIGN.md section 6"},
